@@ -434,7 +434,11 @@ func objCoq(c *objCase, o *objObs) string {
 		case "recreate":
 			steps = append(steps, "ORecreate "+objCoqResList(s.Tgt))
 		case "split":
-			steps = append(steps, fmt.Sprintf("OSplit %s\n    %s %d", hx.CoqStr(s.Text), hx.CoqStrList(s.Docs), s.NDocs))
+			docs := make([]string, len(s.Docs))
+			for i, d := range s.Docs {
+				docs[i] = c02CoqText(d)
+			}
+			steps = append(steps, fmt.Sprintf("OSplit %s\n    %s %d", c02CoqText(s.Text), hx.CoqList(docs), s.NDocs))
 		case "create":
 			steps = append(steps, "OCreate "+objCoqResList(s.Tgt))
 		case "delete":
@@ -470,4 +474,15 @@ func modelKeys(ks []string) []string {
 		out[i] = modelKey(k)
 	}
 	return out
+}
+
+// c02CoqText prints a multi-line text as (txt ["line"; ...]) (Run/RunC02Obj.v: the lines joined by "\n"): string
+// literals are far cheaper for coqc than the byte lists hx.CoqStr falls back to for anything with a control character.
+func c02CoqText(s string) string {
+	lines := strings.Split(s, "\n")
+	it := make([]string, len(lines))
+	for i, l := range lines {
+		it[i] = hx.CoqStr(l)
+	}
+	return "(txt " + hx.CoqList(it) + ")"
 }
